@@ -58,7 +58,7 @@ def read_runs(path):
         yield sc, run
 
 
-def project_nuts(run):
+def project_nuts(run, sc=None):
     """NutsTreeTrace vocabulary for one NUTS run. Returns list of dicts."""
     out = [{"e": "reset"}]
     in_draw = False
@@ -89,7 +89,17 @@ def project_nuts(run):
         elif k == "dir" and in_draw:
             out.append({"e": "dir", "d": 1 if ev["d"] == "F" else -1, "check": ev["check"]})
         elif k == "leap" and in_draw:
-            r = {"e": "leap", "start": ev["start"], "d": ev["sign"], "res": ev["res"]}
+            r = {"e": "leap", "start": ev["start"], "d": ev["sign"], "res": ev["res"], "eeok": True}
+            # a leapfrog is a divergence exactly when its energy error exceeds the *configured* max_energy_error
+            # (or is not finite)
+            maxe = (sc or {}).get("settings", {}).get("max_energy_error")
+            if maxe is not None and ev.get("eerr"):
+                ee = f_from_bits(ev["eerr"])
+                too_big = (ee > maxe) or not math.isfinite(ee)
+                if ev["res"] == "ok":
+                    r["eeok"] = not too_big
+                elif ev["res"] == "div" and ev.get("why") == "energy":
+                    r["eeok"] = too_big
             if ev["res"] == "ok":
                 r.update({"end": ev["end"], "ph": ev["ph"], "logp": ev["logp"], "energy": ev["energy"],
                           "gh": ev.get("gh", "?")})
